@@ -10,6 +10,7 @@ Line protocol (area c39), one real transaction per line on the implementation si
   dep <badge> +|-                      add / remove_authorized_depositor
   odep <buckets>                       owner `deposit_batch`
   wd <res> <amt>                       owner `withdraw`
+  !rule / !pref / !dep / !odep / !wd   the same calls WITHOUT the owner's signature (must fail in the auth layer)
   try r|br|a|ba <badge|-> <mask> <buckets>   guarded deposit; mask = proofs in the caller's auth zone
 buckets: `-` (empty) or `res:amt,res:amt,...`; resources 0..4 (0 = XRD), badges 0..4.
 Answer: `<outcome> ev=<events> ret=<returned> st=<rule>;<prefs>;<deps>;<vaults>`.
@@ -78,6 +79,7 @@ def showErr : Err → String
   | .notAllBucketsCouldBeDeposited => "err:not-all"
   | .vaultDoesNotExist _ => "err:no-vault"
   | .insufficientBalance _ => "err:insufficient"
+  | .unauthorized => "err:auth"
 
 def okLine (s : Acct) (evs : String) (ret : String) : String :=
   s!"ok ev={evs} ret={ret} st={showState s}"
@@ -167,6 +169,16 @@ def stepLine (d : DS) (line : String) : DS × String :=
     else if v = "babylon" then (⟨.v1, init, true⟩, "ok " ++ showState init)
     else (d, "bad-op")
   | "reset" :: _ => (d, "bad-op")
-  | ws => if d.on then stepOn d ws else (d, "bad-op")
+  | w :: rest =>
+    if !d.on then (d, "bad-op")
+    else if w = "!rule" ∨ w = "!pref" ∨ w = "!dep" ∨ w = "!odep" ∨ w = "!wd" then
+      -- the same owner call made WITHOUT the owner's signature: well-formed arguments, then the auth layer refuses
+      let (_, a) := stepOn d ((w.drop 1).toString :: rest)
+      if a = "bad-op" then (d, "bad-op")
+      else match ownerMethodByStranger d.s with
+        | .error e => (d, errLine d.s e)
+        | .ok s => ({ d with s := s }, okLine s "-" "-")
+    else stepOn d (w :: rest)
+  | [] => (d, "bad-op")
 
 def main : IO Unit := run stepLine (⟨.bottlenose, init, false⟩ : DS)
